@@ -39,7 +39,7 @@ BUDGET_S = {'quick': 240, 'thorough': 900}
 
 
 def bounds(tier):
-    return {'definition_items': len(def_items()), 'other_items': len(other_items()), 'type_variable_sizes': [1, 2]}
+    return {'definition_items': len(def_items()), 'generated_definitions': '%d seeded (recursive grammar, depth <= 3)' % (40 if tier == 'quick' else 1500), 'other_items': len(other_items()), 'type_variable_sizes': [1, 2]}
 
 
 def setup(tier, seed):
@@ -378,8 +378,27 @@ def round_trip(data, item):
     return None, None
 
 
+def gen_def(seed, j):
+    """A seeded definition item with a right-hand side from a recursive grammar (depth <= 3) over the adversarial atoms."""
+    rnd = random.Random('c11g-%s-%s' % (seed, j))
+    name, T, lhs, atoms = rnd.choice([
+        ('c1', "'a => bool", 'c1 x', ["x = x", "c1 x", "(!u::'a. c1 u)", "(?u::'a. ~(c1 u))", "(!u::'b. !v::'b. u = v)", "x = y", "(?u::'a. ~(u = x))", "true", "false"]),
+        ('c2', "'a => 'a => bool", 'c2 x y', ["x = y", "c2 y x", "c2 x x", "(!u::'a. c2 u y)", "(?u::'b. !v::'b. u = v)", "c2 y y", "y = x", "(?u::'a. c2 x u)"]),
+        ('c0', "bool", 'c0', ["true", "c0", "(!u::'b. !v::'b. u = v)", "(p::bool)", "(!u::'a. u = u)", "(?u::'c. ?v::'c. ~(u = v))"])])
+
+    def g(d):
+        if d == 0 or rnd.random() < 0.3:
+            return rnd.choice(atoms)
+        k = rnd.choice(['&', '|', '-->', '<-->', '~'])
+        if k == '~':
+            return '~(%s)' % g(d - 1)
+        return '(%s) %s (%s)' % (g(d - 1), k, g(d - 1))
+    return {'ty': 'def', 'name': name, 'type': T, 'prop': "%s <--> (%s)" % (lhs, g(3))}
+
+
 def units(tier, seed):
     us = [('def', i) for i in range(len(def_items()))] + [('other', i) for i in range(len(other_items()))]
+    us += [('gen', (seed, j)) for j in range(40 if tier == 'quick' else 1500)]
     random.Random(seed).shuffle(us)
     return us
 
@@ -388,7 +407,7 @@ def units(tier, seed):
 
 def run_unit(u):
     out = {'evals': 0, 'keys': set(), 'cex': [], 'samples': [], 'inconclusive': 0, 'stats': {}}
-    data = (def_items() if u[0] == 'def' else other_items())[u[1]]
+    data = gen_def(*u[1]) if u[0] == 'gen' else (def_items() if u[0] == 'def' else other_items())[u[1]]
     out['evals'] += 1
     if os.environ.get('VERIF_TWIN'):
         out['cex'].append({'kind': 'twin', 'part': u[0], 'i': u[1]})
@@ -396,7 +415,7 @@ def run_unit(u):
         return out
     kind, detail, accepted = check_item(data)
     if accepted:
-        out['keys'].add('%s|%d' % u)
+        out['keys'].add('%s|%s' % u)
         out['stats']['accepted_items'] = 1
     if kind == '_unknown':
         out['inconclusive'] += 1
@@ -410,6 +429,6 @@ def run_unit(u):
 def replay(c):
     if c['kind'] == 'twin':
         return True, 'twin'
-    data = (def_items() if c['part'] == 'def' else other_items())[c['i']]
+    data = gen_def(*c['i']) if c['part'] == 'gen' else (def_items() if c['part'] == 'def' else other_items())[c['i']]
     kind, detail, _ = check_item(data)
     return kind == c['kind'], detail
